@@ -91,6 +91,37 @@ fn cx_of(ring: &str, l: &Link, h: P, t: P, red: bool) -> Value {
     }
 }
 
+
+/// KhComplexBigraded over Z at numeric parameters, by both constructors: either the request is refused (res "rej") or what is returned
+/// really is a bigraded complex: every term of d x for x in C[i,j] lies in C[i+1,j], d.d = 0, the matrices can be assembled.
+fn bigr_event(name: &str, l: &Link, h: i64, t: i64, red: bool, route: &str) -> Value {
+    use yui_homology::{isize2, ChainComplexTrait, GridTrait, SummandTrait};
+    let mut e = json!({"op": "bigr", "name": name, "ring": "Z", "red": red, "h": h, "t": t, "route": route, "homog": false, "dd0": false});
+    let built = guarded(|| if route == "new" { yui_kh::kh::KhComplexBigraded::<i64>::new(l, &h, &t, red) } else { KhComplex::<i64>::new(l, &h, &t, red).into_bigraded() });
+    match built {
+        Err(m) => { e["res"] = json!("rej"); e["panic"] = json!(m); }
+        Ok(c) => {
+            e["res"] = json!("ok");
+            let chk = guarded(|| {
+                let (mut homog, mut dd0) = (c.d_deg() == isize2(1, 0), true);
+                for idx in c.support() {
+                    let isize2(i, j) = idx;
+                    for k in 0..c[(i, j)].rank() {
+                        let x = c[(i, j)].gen(k);
+                        let dx = c.d(idx, &x);
+                        for y in dx.gens() { if (y.h_deg(), y.q_deg()) != (i + 1, j) { homog = false; } }
+                        if homog && !num_traits::Zero::is_zero(&c.d(isize2(i + 1, j), &dx)) { dd0 = false; }
+                    }
+                    if homog { let _ = c.d_matrix(idx); }
+                }
+                (homog, dd0)
+            });
+            if let Ok((a, b)) = chk { e["homog"] = json!(a); e["dd0"] = json!(b); }
+        }
+    }
+    e
+}
+
 pub fn record(a: &Args) {
     let th = a.thorough();
     let mut t = Tracer::create(&a.out);
@@ -116,6 +147,7 @@ pub fn record(a: &Args) {
     let qpts: Vec<(i64, i64)> = if th { vec![(1, 0), (0, 1), (2, 3), (-1, 2), (2, 0)] } else { vec![(1, 0), (0, 1), (2, 3)] };
 
     let mut overflows = 0usize;
+    let mut bigr = 0usize;
     let mut probe_np = 0usize;
     let (mut links, mut cxs, mut panics, mut entries, mut maxrank, mut polys, mut directs) = (0usize, 0usize, 0usize, 0usize, 0usize, 0usize, 0usize);
     for name in all.iter() {
@@ -123,6 +155,11 @@ pub fn record(a: &Args) {
             Ok(l) => l, Err(m) => { t.emit(&json!({"op": "link", "name": name, "res": "panic", "panic": m})); panics += 1; continue; } };
         links += 1;
         t.emit(&json!({"op": "link", "name": name, "n": l.crossing_num(), "comps": l.components().len(), "res": "ok"}));
+        // bigraded complexes at numeric points (small diagrams): refused, or really bigraded
+        if l.crossing_num() <= 5 && !probes.contains(name) {
+            for (h, tt) in [(0i64, 0i64), (1, 0), (2, 0), (0, 1), (-1, 2)] { for red in [false, true] { if red && (l.is_empty() || tt != 0) { continue; }
+                for route in ["new", "into"] { t.emit(&bigr_event(name, &l, h, tt, red, route)); bigr += 1; } } }
+        }
         let probe = probes.contains(name);
         for red in [false, true] {
             if red && (l.is_empty() || probe) { continue; }
@@ -158,5 +195,5 @@ pub fn record(a: &Args) {
     }
     let n = t.finish();
     summary("record", json!({"events": n, "links": links, "complexes": cxs, "polynomial_complexes": polys, "direct_complexes_at_nonzero_points": directs,
-        "matrix_entries": entries, "max_rank": maxrank, "panics": panics, "machine_integer_overflows": overflows}));
+        "matrix_entries": entries, "max_rank": maxrank, "panics": panics, "machine_integer_overflows": overflows, "bigraded_requests_at_numeric_points": bigr}));
 }
